@@ -22,6 +22,20 @@ def width_forms(v):
     return out
 
 
+def decoder_total(ctx, rule, inst, o, inp, allowed, site=None):
+    """The decoder must accept every output of the encoder: the conditions on its returning path
+    that mention the input may only be the listed width/range/type checks."""
+    extra = []
+    for (t, p, _) in o.state.pc:
+        if not any(x == inp for x in subterms(t)):
+            continue
+        if (t, p) in allowed or is_app(t, "isinstance"):
+            continue
+        extra.append(show(t, maxdepth=4) + "=" + str(p))
+    ctx.ob(rule, inst, not extra, "accepts every encoding the encoder produces (only width/range/type conditions on the accepting path)" if not extra else
+           "the decoder also requires %s: some valid encodings are refused, so it is not the inverse of the encoder" % extra, site)
+
+
 def util(ctx, world, ev):
     ut = world.module("spake2.util")
     n2b = ev.module_global(ut, "number_to_bytes", None)
@@ -92,6 +106,12 @@ def integer_group(ctx, world, ev):
             ok = o.value == mk_app("be2int", (b,))
             ctx.ob("K2-decoder", "%s.%s" % (gname, meth_dec), ok, "big-endian integer (inverse of the encoder on [0, q))" if ok else
                    "scalar decoder returns %s, expected be2int(b)" % show(o.value, maxdepth=5), (g.cls.mod.relpath, 0, meth_dec))
+            i_ = mk_app("be2int", (b,))
+            allowed = {(mk_app("Eq", (mk_app("len", (b,)), wf)), True), (mk_app("NotEq", (mk_app("len", (b,)), wf)), False),
+                       (mk_app("LtE", (Const(0), i_)), True), (mk_app("Lt", (i_, mod_sym)), True), (mk_app("GtE", (i_, Const(0))), True),
+                       (mk_app("GtE", (i_, mod_sym)), False), (mk_app("Lt", (i_, Const(0))), False),
+                       (App("And", (mk_app("LtE", (Const(0), i_)), mk_app("Lt", (i_, mod_sym)))), True)}
+            decoder_total(ctx, "K2-total", "%s.%s" % (gname, meth_dec), o, b, allowed, (g.cls.mod.relpath, 0, meth_dec))
     # elements
     base = f.get("Base")
     e = ev.new_obj(base.cls, st)
@@ -146,6 +166,10 @@ def ed25519(ctx, world, ev):
         ok = o.value == mk_app("be2int", (mk_app("rev", (s,)),))
         ctx.ob("K4-decoder", "Ed25519 bytes_to_scalar", ok, "little-endian integer (inverse of the encoder on [0, L))" if ok else
                "scalar decoder is %s, expected the little-endian integer" % show(o.value, maxdepth=5), o.site)
+        i_ = mk_app("be2int", (mk_app("rev", (s,)),))
+        allowed = {(mk_app("Eq", (mk_app("len", (s,)), Const(32))), True), (mk_app("NotEq", (mk_app("len", (s,)), Const(32))), False),
+                   (mk_app("Lt", (i_, L)), True), (mk_app("GtE", (i_, L)), False), (mk_app("LtE", (Const(0), i_)), True)}
+        decoder_total(ctx, "K4-total", "Ed25519 bytes_to_scalar", o, s, allowed, o.site)
     # ---- points: encoder on an element with symbolic *affine* coordinates
     st = world.static.fork()
     cf = [k for k, v in st.heap[base.oid].items() if isinstance(v, TupleV) and len(v.items) == 4]
